@@ -162,6 +162,10 @@ func c19Case(args []string) string {
 		return c19Jipcf(args[1:])
 	case "sched":
 		return c19Sched(args[1:])
+	case "jconc":
+		return c19Jconc(args[1:])
+	case "jsoak":
+		return c19Jsoak(args[1:])
 	}
 	return "!badcase"
 }
